@@ -1,11 +1,14 @@
 pub mod containers;
 pub mod disasm;
+pub mod value;
 
 pub fn generate(family: &str, seed: u64, n: usize, tier: &str, emit: &mut dyn FnMut(String)) {
     match family {
         "disasm" => disasm::generate(seed, n, tier, emit),
         "ds" => containers::generate_ds(seed, n, tier, emit),
         "vmap" => containers::generate_vmap(seed, n, tier, emit),
+        "word" => value::generate_word(seed, n, tier, emit),
+        "fold" => value::generate_fold(seed, n, tier, emit),
         _ => panic!("unknown family {family}"),
     }
 }
@@ -15,6 +18,8 @@ pub fn eval(family: &str, payload: &str) -> String {
         "disasm" => disasm::eval(payload),
         "ds" => containers::eval_ds(payload),
         "vmap" => containers::eval_vmap(payload),
+        "word" => value::eval_word(payload),
+        "fold" => value::eval_fold(payload),
         _ => format!("err unknown-family-{family}"),
     }
 }
